@@ -12,7 +12,7 @@ case "$P" in
   *) (cd "$D" && git apply --unsafe-paths -p1 "$P" 2>/dev/null || patch -s -p1 < "$P") ;;
 esac || { echo "APPLY-FAILED"; rm -rf "$D"; exit 3; }
 if diff -rq --exclude .git /repo "$D" >/dev/null; then echo "NO-CHANGE: the mutant did not modify anything"; rm -rf "$D"; exit 3; fi
-(cd "$D" && go build -tags unit ./... ) || { echo "BUILD-FAILED"; rm -rf "$D"; exit 3; }
+(cd "$D" && go build -trimpath -tags unit ./... ) || { echo "BUILD-FAILED"; rm -rf "$D"; exit 3; }
 rc=0
 for prop in "$@"; do
   out=$(${KC_BIN:-/verif/bin/kitcheck} -prop "$prop" -repo "$D" -verif ${KC_VERIF:-/tmp/kcmut-verif} 2>&1); r=$?
